@@ -194,6 +194,8 @@ def run_econ(model, symbolic=True):
             from geophires_x import SBTEconomics as SE
             binds += [(SE, 'npf', npf_shim()), (SE, 'math', MATH), (SE, 'np', shim.NP)]
         binds = [b for b in binds if hasattr(b[0], b[1])]
+        # float(x) on a proxy keeps the proxy (a conversion of a computed figure must not end the symbolic run)
+        binds += [(mod_, 'float', shim.FloatShadow) for mod_ in {b[0] for b in binds}]
         with shim.shadow(*binds):
             model.economics.Calculate(model)
     else:
